@@ -115,3 +115,16 @@ W void w_hist_copy(int32_t a, int32_t b, int32_t x, int32_t y, Hist* h1, Hist* h
 W void w_hist_clear_reuse(int32_t a, int32_t b, Hist* h) {
   arena.reset(); { JsonDocument doc(&arena); doc.add(a); doc.add(a); doc.clear(); h->calls_before = arena.calls; h->frees = arena.n_free; doc.add(b); observe_arr(doc, h); h->calls_after = arena.calls; }
 }
+// ---- 64-bit value whose extension slot cannot be allocated (C05/C19): the failure must be reported and flagged
+W void w_ext_fail(int64_t v, unsigned failAt, Hist* h) {
+  arena.reset(failAt ? (1u << (failAt - 1)) : 0); JsonDocument doc(&arena);
+  h->ok_mask = doc.set(v) ? 1 : 0; h->overflowed = doc.overflowed(); h->calls_after = arena.calls;
+  h->size = doc.is<int64_t>() ? 1 : 0; h->e[0] = doc.isNull() ? 1 : 0; h->n = unsigned(doc.as<int64_t>() == v);
+}
+// ---- read-only operations on a proxy of a missing element must not create it (C04/C06)
+W void w_readonly_proxy(int32_t a, unsigned idx, Hist* h) {
+  arena.reset(); JsonDocument doc(&arena); doc.add(a); unsigned c0 = arena.calls;
+  unsigned n = unsigned(doc[idx].nesting()); unsigned s = unsigned(doc[idx].size()); bool isn = doc[idx].isNull(); int v = doc[idx] | -7;
+  h->calls_before = c0; h->calls_after = arena.calls; h->ok_mask = isn ? 1 : 0; h->frees = unsigned(v);
+  observe_arr(doc, h); h->e[7] = int32_t(n + s);
+}
